@@ -194,5 +194,135 @@ Proof.
     reflexivity.
 Qed.
 
+(* ---------- GetVarStr on a field that AddVarStr appended ---------- *)
+Lemma get_byte_from m idx b r : payload m -> 0 <= idx < mlen m -> from m idx = b :: r ->
+  get_byte m idx = Ok (b, idx + 1) /\ from m (idx + 1) = r.
+Proof.
+  intros Hp Hi Hf. rewrite (from_cons m idx Hp Hi) in Hf. injection Hf as Hb Hr.
+  rewrite get_byte_in by assumption. rewrite Hb. split; [reflexivity|exact Hr].
+Qed.
+
+Lemma c_str_zset0 (dest:list Z) : (0 < length dest)%nat -> c_str (zset dest 0 0) = [].
+Proof. destruct dest as [|x dest]; cbn [length]; [lia|]. intros _. reflexivity. Qed.
+
+Lemma get_var_str_appended m type body dest nul : payload m -> mlen m + Z.of_nat (length body) + 2 <= 223 ->
+  (type = 0 \/ type = 1) ->
+  let size := Z.of_nat (length dest) in 0 < size ->
+  let m' := appended m (Z.of_nat (length body) + 2 :: type :: body) in
+  payload m' /\ mlen m' = mlen m + 2 + Z.of_nat (length body) /\
+  from m' (mlen m + 2) = body ++ skipn (Z.to_nat (mlen m) + length (Z.of_nat (length body) + 2 :: type :: body)) (mdata m) /\
+  get_var_str m' size dest nul (mlen m) =
+    if Z.of_nat (length body) =? 0 then Ok (true, 0, mlen m + 2, zset dest 0 0)
+    else if type =? 1 then
+      (r <- get_str_sized m' size dest (Z.of_nat (length body)) nul (mlen m + 2) ;;
+       let '(_, idx3, d) := r in Ok (true, Z.of_nat (length body), idx3, d))
+    else
+      (r <- ucs2_to_utf8 (mdata m') (mlen m + 2) (Z.of_nat (length body)) dest size nul ;;
+       Ok (true, fst r, mlen m + 2 + Z.of_nat (length body), snd r)).
+Proof.
+  intros Hp Hfit Hty size Hsize m'. pose proof Hp as [Hd Hl].
+  set (f := Z.of_nat (length body) + 2 :: type :: body) in *.
+  assert (Hfl : Z.of_nat (length f) = Z.of_nat (length body) + 2) by (subst f; cbn [length]; lia).
+  assert (Hp' : payload m') by (apply appended_payload; [exact Hp|lia]).
+  assert (Hml : mlen m' = mlen m + 2 + Z.of_nat (length body)) by (subst m'; unfold appended; cbn [mlen]; lia).
+  assert (Hfrom2 : from m' (mlen m + 2) = body ++ skipn (Z.to_nat (mlen m) + length f) (mdata m)).
+  { pose proof (from_appended_skip m [Z.of_nat (length body) + 2; type] body Hp) as H. cbn [app length] in H.
+    change (Z.of_nat 2) with 2 in H. apply H. fold f. lia. }
+  split; [exact Hp'|]. split; [exact Hml|]. split; [exact Hfrom2|].
+  pose proof (from_appended m f Hp ltac:(lia)) as Hfrom. fold m' in Hfrom.
+  destruct (get_byte_from m' (mlen m) _ _ Hp' ltac:(lia) Hfrom) as [E1 Hfrom1].
+  destruct (get_byte_from m' (mlen m + 1) _ _ Hp' ltac:(lia) Hfrom1) as [E2 _].
+  unfold get_var_str. rewrite E1. cbn [bind fst snd]. rewrite E2. cbn [bind fst snd].
+  replace (mlen m + 1 + 1) with (mlen m + 2) by lia.
+  destruct (Z.eqb_spec (Z.of_nat (length body)) 0) as [E0|Hne].
+  - destruct (Z.leb_spec (Z.of_nat (length body) + 2) 2); [|lia]. cbn [orb].
+    destruct (Z.gtb_spec size 0); [|lia]. rewrite wr_ok by lia. cbn [bind].
+    destruct (Z.eqb_spec (Z.of_nat (length body) + 2) 2); [|lia].
+    destruct (Z.leb_spec type 1); [|lia]. reflexivity.
+  - destruct (Z.leb_spec (Z.of_nat (length body) + 2) 2); [lia|].
+    destruct (Z.eqb_spec (Z.of_nat (length body) + 2) 255); [lia|].
+    destruct (Z.gtb_spec type 1); [lia|].
+    destruct (Z.geb_spec (mlen m + 2) (mlen m')); [lia|]. cbn [orb].
+    replace (Z.of_nat (length body) + 2 - 2) with (Z.of_nat (length body)) by lia.
+    destruct (Z.gtb_spec (Z.of_nat (length body) + (mlen m + 2)) (mlen m')); [lia|].
+    destruct (Z.gtb_spec size 0); [|lia]. reflexivity.
+Qed.
+
+(* ---------- 4b. plain variable-length fields ---------- *)
+Lemma ascii_cstring s : ascii s -> cstring s.
+Proof. intros H. eapply Forall_impl; [|exact H]. cbn beta. intros b Hb. lia. Qed.
+
+Lemma ru_loop_ascii s : ascii s -> forall fuel p, 0 <= p <= Z.of_nat (length s) ->
+  Z.of_nat (length s) - p < Z.of_nat fuel -> ru_loop s fuel p = Ok false.
+Proof.
+  intros Ha. pose proof (ascii_cstring s Ha) as Hs.
+  induction fuel as [|k IH]; intros p Hp Hf; [lia|]. cbn [ru_loop].
+  destruct (Z.eq_dec p (Z.of_nat (length s))) as [->|Hne].
+  - rewrite rd_end. cbn [bind]. reflexivity.
+  - destruct (rd_in s p Hs ltac:(lia)) as (b & E & Hb & Hnth). rewrite E. cbn [bind].
+    assert (Hb7 : 1 <= b <= 127).
+    { unfold ascii in Ha. rewrite Forall_forall in Ha. apply Ha. eapply nth_error_In. exact Hnth. }
+    destruct (Z.eqb_spec b 0); [lia|].
+    unfold lead_len. destruct (Z.ltb_spec b 128); [|lia]. cbn [Z.eqb Z.sub Z.to_nat Z.pos_sub Z.add Z.opp ru_cont].
+    destruct (rd_ok s (p + 1) Hs ltac:(lia)) as (b1 & E1 & _). rewrite E1. cbn [bind Z.gtb Z.compare Pos.compare].
+    apply IH; lia.
+Qed.
+
+Lemma var_field_ascii s maxlen support chars dl : ascii s -> 0 <= maxlen -> 0 <= dl <= 221 ->
+  var_field s maxlen support chars dl =
+  Ok (1, firstn (Z.to_nat (Z.min (Z.min (Z.of_nat (length s)) maxlen) (221 - dl))) s).
+Proof.
+  intros Ha Hmax Hdl. pose proof (ascii_cstring s Ha) as Hs. unfold var_field.
+  destruct (Z.leb_spec (223 - dl) 2).
+  { replace (Z.to_nat (Z.min (Z.min (Z.of_nat (length s)) maxlen) (221 - dl))) with 0%nat by lia. reflexivity. }
+  destruct s as [|c s'].
+  { cbn [rd Z.ltb Z.compare Z.to_nat nth_error length Z.of_nat Z.eqb bind]. rewrite firstn_nil. reflexivity. }
+  set (s := c :: s') in *.
+  destruct (rd_in s 0 Hs ltac:(subst s; cbn [length]; lia)) as (c0 & E0 & Hc0 & _). rewrite E0. cbn [bind].
+  destruct (Z.eqb_spec c0 0); [lia|].
+  unfold require_unicode. rewrite (ru_loop_ascii s Ha) by lia. cbn [bind].
+  f_equal. f_equal. f_equal. f_equal.
+  set (l1 := if Z.of_nat (length s) >? maxlen then maxlen else Z.of_nat (length s)).
+  assert (Hl1 : l1 = Z.min (Z.of_nat (length s)) maxlen) by (subst l1; destruct (Z.gtb_spec (Z.of_nat (length s)) maxlen); lia).
+  destruct (Z.ltb_spec (223 - dl - 2) l1); lia.
+Qed.
+
+Theorem roundtrip_var_ascii : roundtrip_var_ascii_stmt.
+Proof.
+  intros m s maxlen support chars nul dest Hp Hfill Ha Hmax Hnin size Hsize.
+  pose proof Hp as [Hd Hl]. pose proof (ascii_cstring s Ha) as Hs.
+  destruct (add_var_str_spec m s maxlen support chars Hp Hfill Hs Hmax) as (ty & body & Ef & Ea & Hb & Hty & _).
+  rewrite (var_field_ascii s maxlen support chars (mlen m) Ha Hmax ltac:(lia)) in Ef. injection Ef as <- <-.
+  set (L := Z.min (Z.min (Z.of_nat (length s)) maxlen) (221 - mlen m)) in *.
+  set (body := firstn (Z.to_nat L) s) in *.
+  assert (Hbl : Z.of_nat (length body) = L) by (subst body; rewrite firstn_length; lia).
+  destruct (get_var_str_appended m 1 body dest nul Hp ltac:(lia) ltac:(right; reflexivity) Hsize) as (Hp' & Hml & Hfrom & Eg).
+  fold size in Eg.
+  set (m' := appended m (Z.of_nat (length body) + 2 :: 1 :: body)) in *.
+  exists m'.
+  assert (Hplain : plain nul s) by (apply cstring_plain; assumption).
+  destruct (Z.eqb_spec (Z.of_nat (length body)) 0) as [E0|Hne].
+  - exists 0, (zset dest 0 0). split; [exact Ea|]. split; [rewrite Eg, Hml; f_equal; f_equal; f_equal; lia|].
+    rewrite c_str_zset0 by lia. unfold zfirstn.
+    replace (Z.to_nat (Z.min L (size - 1))) with 0%nat by lia. reflexivity.
+  - change (1 =? 1) with true in Eg. cbv iota in Eg.
+    pose proof (get_str_sized_fits m' dest (Z.of_nat (length body)) nul (mlen m + 2) Hp' ltac:(lia) ltac:(lia) ltac:(lia)) as E.
+    cbn zeta in E. fold size in E. specialize (E Hsize).
+    pose proof (gs_out_length m' size (Z.of_nat (length body)) nul (mlen m + 2) Hp' ltac:(lia) ltac:(lia) ltac:(lia) Hsize) as Hol.
+    rewrite E in Eg. cbn [bind] in Eg.
+    eexists _, _. split; [exact Ea|]. split; [rewrite Eg, Hml; reflexivity|].
+    unfold gs_out in *. rewrite Hfrom in *.
+    set (k := Z.to_nat (Z.min (Z.of_nat (length body)) (size - 1))) in *.
+    rewrite firstn_app_le in * by lia.
+    assert (Hpk : plain nul (firstn k body)) by (apply plain_firstn; subst body; apply plain_firstn; exact Hplain).
+    assert (Hg : gmap nul false (firstn k body) = firstn k body).
+    { rewrite <- (app_nil_r (firstn k body)) at 1. rewrite (gmap_plain nul _ Hpk). cbn [gmap]. apply app_nil_r. }
+    rewrite Hg in *.
+    match goal with |- c_str (?x ++ repeat 0 ?j) = _ => replace j with (S (j - 1)) by lia end.
+    cbn [repeat]. rewrite c_str_app_zero by (eapply plain_nz; exact Hpk).
+    subst body. rewrite firstn_firstn. unfold zfirstn. f_equal. lia.
+Qed.
+
 Print Assumptions roundtrip_fixed.
 Print Assumptions roundtrip_ais.
+Print Assumptions roundtrip_var_ascii.
